@@ -321,8 +321,8 @@ def numeric_layer(exe, rels, fps, qs, stddim, twins, pairs, wd, n):
                 f.write(f"{byname[nm]['id']} {kind[0]}\n")
     with open(os.path.join(wd, 'opnative.txt'), 'w') as f:
         for r in rels:
-            if r['kind'] == 'op' and not any(a in qgen.NORMALISED for a in r['args']) and r['rsz'] == max(r['asz']):
-                f.write(f"{r['id']} {'+-*/'.index(r['op'])}\n")
+            if r['kind'] in ('op', 'cop') and not any(a in qgen.NORMALISED for a in r['args']) and r['rsz'] == max(r['asz']):
+                f.write(f"{r['id']} {'+-*/'.index(r['op'][0])}\n")
     jobs = [('opnative', 'opnative.txt', n * 5), ('equiv', 'equiv.txt', n), ('twin', 'twin.txt', n * 5), ('inverse', 'inverse.txt', n * 5), ('mono', 'mono.txt', n * 5), ('tdef', 'tdef.txt', n * 10)]
 
     def one(j):
